@@ -72,14 +72,20 @@ def run(tier):
             msgdiff += 1
             verdict.disagree({"variant": "/".join(sorted(g)), "what": "message"},
                              {"program": S.slim(g["plain"]), "messages": {v: m[1] for v, m in msgs.items()}})
+    # X: ExprGen.tla -- every operation form x operand shapes, each case spelt with literals (what the
+    # optimiser folds / specialises / executes speculatively), with variables, and mixed; each judged
+    # by Sem.tla, and the spellings of one case must fail with the same message
+    xs = S.exprgen("ExprGen_c02q.cfg" if tier == "quick" else "ExprGen_c02t.cfg", wd, "c02", verdict,
+                   workers=8 if tier == "quick" else 14, compare_messages=True)
     judged = stats["n"] - stats["skipped"]
     if judged < len(rows) // 2 or meta["frozen_variants"] < n // 10:
         raise C.ToolError("vacuous: judged %d of %d records, %d frozen variants" % (judged, len(rows), meta["frozen_variants"]))
     rc = verdict.finish()
     g0 = groups[sample_ps[0]]
     C.write_evidence(PROP, tier, "model_checking", {
-        "states": states, "transitions": states,
-        "traces_validated_against_impl": judged,
+        "states": states + xs["states"], "transitions": states + xs["states"],
+        "traces_validated_against_impl": judged + xs["cases"] - xs["skipped"],
+        "exprgen": {k: xs[k] for k in ("sessions", "cases", "skipped", "bad", "forms", "kinds", "message_groups", "message_differences")},
         "samples": [{v: {"src": r["src"], "err": r["err"]} for v, r in g0.items() if v != "frozen"}],
         "evaluations": len(rows),
         "distinct_nontrivial": sum(1 for p, g in groups.items() if len(g) >= 2 and g["plain"]["out"]),
@@ -89,7 +95,8 @@ def run(tier):
         "failing_programs": sum(1 for g in groups.values() if g["plain"]["err"]["kind"]),
         "rewrite_checked_on": len(set(sample_ps) | need), "message_differences": msgdiff,
         "skipped_outside_sem_domain": stats["skipped"],
-        "sem_layer": "1 (structs, records, enums, f-strings, % and .format are not yet in Sem: the full-dialect part of C02 is not covered)",
+        "sem_layer": "1 + 2 (f-strings, % and .format, every string method, sets, struct, getattr, bit operators; records, enums and "
+                     "type annotations are not yet in Sem: that part of the full dialect is not covered)",
     }, time.time() - t0, len(verdict.violations),
         assumptions=["Sem.tla is the reference", "Opaque(P) is defined in harness/src/engines/sem/mod.rs::opacify and checked per run to "
                      "preserve Sem's meaning", "error messages are compared as text between variants, never against a constant"])
